@@ -19,11 +19,20 @@
 (*   "stateful"   one long-lived optimizer per thread whose best-so-far    *)
 (*                survives from one query to the next (HyperOptimizer      *)
 (*                reused for different contractions)    (negative instance)*)
+(* Re-entrancy (constant Nest): while a thread's sub-optimizer runs it may *)
+(* itself ask the SAME shared object about another contraction (a trial    *)
+(* method that hands a sub-problem to the shared optimizer; kahypar's      *)
+(* super_optimize='auto-hq' does this with the 'auto-hq' preset).  The     *)
+(* nested query runs to completion on the same thread and uses the same    *)
+(* per-thread slot.  The code remembers the optimizer that ran AFTER its   *)
+(* search, so the outer query overwrites whatever the nested one left;     *)
+(* StoreFirst = TRUE (remember it before the search) is a negative         *)
+(* instance.                                                               *)
 (***************************************************************************)
 EXTENDS Naturals, Sequences, FiniteSets, TLC
-CONSTANTS Threads, Queue, Cost, Variant, UseCache, MaxHist
-VARIABLES pc, qi, cache, slot, shared, best, answers, hist
-vars == <<pc, qi, cache, slot, shared, best, answers, hist>>
+CONSTANTS Threads, Queue, Cost, Variant, UseCache, MaxHist, Nest, StoreFirst
+VARIABLES pc, qi, cache, slot, shared, best, answers, hist, nested
+vars == <<pc, qi, cache, slot, shared, best, answers, hist, nested>>
 
 Q(t) == Queue[t][qi[t]]
 Log(t) == hist' = IF MaxHist THEN Append(hist, t) ELSE hist
@@ -32,35 +41,50 @@ Init == /\ pc = [t \in Threads |-> "idle"] /\ qi = [t \in Threads |-> 0]
         /\ cache = {} /\ slot = [t \in Threads |-> 0] /\ shared = 0
         /\ best = [t \in Threads |-> 0]
         /\ answers = [t \in Threads |-> <<>>] /\ hist = <<>>
+        /\ nested = [t \in Threads |-> 0]
 
 Goto(t, l) == pc' = [pc EXCEPT ![t] = l]
 Answer(t, c) == answers' = [answers EXCEPT ![t] = Append(@, <<Q(t), c>>)]
 
 Begin(t) == /\ pc[t] = "idle" /\ qi[t] < Len(Queue[t])
             /\ qi' = [qi EXCEPT ![t] = @ + 1] /\ Goto(t, "hash")
+            /\ nested' = [nested EXCEPT ![t] = 0]
             /\ UNCHANGED <<cache, slot, shared, best, answers>> /\ Log(t)
 Hash(t) == /\ pc[t] = "hash"
            /\ IF UseCache /\ Q(t) \in cache
               THEN Answer(t, Q(t)) /\ Goto(t, "idle")      \* rebuilt from the entry of this fingerprint
               ELSE Goto(t, "getsub") /\ UNCHANGED answers
-           /\ UNCHANGED <<qi, cache, slot, shared, best>> /\ Log(t)
-GetSub(t) == /\ pc[t] = "getsub" /\ Goto(t, "search")
-             /\ UNCHANGED <<qi, cache, slot, shared, best, answers>> /\ Log(t)
-Search(t) == /\ pc[t] = "search" /\ Goto(t, "store")
+           /\ UNCHANGED <<qi, cache, slot, shared, best, nested>> /\ Log(t)
+GetSub(t) == /\ pc[t] = "getsub" /\ Goto(t, IF StoreFirst THEN "store" ELSE "search")
+             /\ UNCHANGED <<qi, cache, slot, shared, best, answers, nested>> /\ Log(t)
+(* a nested query about contraction c, asked by the running sub-optimizer of thread t, start to finish *)
+Nested(t, c) ==
+    /\ Nest /\ pc[t] = "search" /\ nested[t] = 0 /\ c # Q(t)
+    /\ nested' = [nested EXCEPT ![t] = 1]
+    /\ IF UseCache /\ c \in cache
+       THEN UNCHANGED <<slot, shared, cache>>                 \* a hit: rebuilt from the entry, nothing remembered
+       ELSE /\ slot' = [slot EXCEPT ![t] = c] /\ shared' = c
+            /\ cache' = IF UseCache THEN cache \cup {c} ELSE cache
+    /\ UNCHANGED <<pc, qi, best, answers, hist>>
+Search(t) == /\ pc[t] = "search" /\ Goto(t, IF StoreFirst THEN "cachewrite" ELSE "store")
              /\ best' = [best EXCEPT ![t] =
                            IF Variant # "stateful" \/ @ = 0 \/ Cost[Q(t)] < Cost[@] THEN Q(t) ELSE @]
-             /\ UNCHANGED <<qi, cache, slot, shared, answers>> /\ Log(t)
-Store(t) == /\ pc[t] = "store" /\ Goto(t, "cachewrite")
-            /\ slot' = [slot EXCEPT ![t] = best[t]] /\ shared' = best[t]
-            /\ UNCHANGED <<qi, cache, best, answers>> /\ Log(t)
+             /\ UNCHANGED <<qi, cache, slot, shared, answers, nested>> /\ Log(t)
+Store(t) == /\ pc[t] = "store" /\ Goto(t, IF StoreFirst THEN "search" ELSE "cachewrite")
+            \* remembered before the search, the slot names the optimizer of this query (its tree is read at fetch)
+            /\ slot' = [slot EXCEPT ![t] = IF StoreFirst THEN Q(t) ELSE best[t]]
+            /\ shared' = IF StoreFirst THEN Q(t) ELSE best[t]
+            /\ UNCHANGED <<qi, cache, best, answers, nested>> /\ Log(t)
 CacheWrite(t) == /\ pc[t] = "cachewrite" /\ Goto(t, "fetch")
                  /\ cache' = IF UseCache THEN cache \cup {Q(t)} ELSE cache
-                 /\ UNCHANGED <<qi, slot, shared, best, answers>> /\ Log(t)
+                 /\ UNCHANGED <<qi, slot, shared, best, answers, nested>> /\ Log(t)
 Fetch(t) == /\ pc[t] = "fetch" /\ Goto(t, "idle")
             /\ Answer(t, IF Variant = "shared" THEN shared ELSE slot[t])
-            /\ UNCHANGED <<qi, cache, slot, shared, best>> /\ Log(t)
+            /\ UNCHANGED <<qi, cache, slot, shared, best, nested>> /\ Log(t)
 
-Step(t) == Begin(t) \/ Hash(t) \/ GetSub(t) \/ Search(t) \/ Store(t) \/ CacheWrite(t) \/ Fetch(t)
+Contractions == UNION {{Queue[t][k] : k \in DOMAIN Queue[t]} : t \in Threads}
+Step(t) == \/ Begin(t) \/ Hash(t) \/ GetSub(t) \/ Search(t) \/ Store(t) \/ CacheWrite(t) \/ Fetch(t)
+           \/ \E c \in Contractions : Nested(t, c)
 Next == \E t \in Threads : Step(t)
 Spec == Init /\ [][Next]_vars
 
